@@ -20,7 +20,7 @@ RULE = ('For each of a set of valid .skf files (64- and 128-bit, 1..12 samples, 
         'a corrupted length only ends its shard and is recorded as a rejection).  Each damaged copy must be rejected or decode '
         'to exactly the original content (k, strand mode, names, rows).  A random sample of damaged copies additionally goes '
         'through align, map, distance, weed, delete, merge and lo: each must fail or give the original\'s result.  Thorough '
-        'tier: `ska delete`/`ska weed` overwriting in place are killed (SIGKILL) or given ENOSPC at every write system call '
+        'tier: the enumeration of the files up to 12 kB is repeated on a harness built with AddressSanitizer (any report is a violation); `ska delete`/`ska weed` overwriting in place are killed (SIGKILL) or given ENOSPC at every write system call '
         '(strace fault injection); the file left behind must be a prefix of the complete output and must be rejected or decode '
         'to that output.  Non-trivial: a damaged copy that differs from the original bytes; distinct = (file, damage).')
 ASSUMPTIONS = ['content = k, strand mode, sample names and rows; ska_version and k_bits are container metadata',
@@ -29,12 +29,12 @@ ASSUMPTIONS = ['content = k, strand mode, sample names and rows; ska_version and
 REQUIRED = {'quick': ['cli_copies_judged', 'lib_copies_judged', 'files_64bit', 'files_128bit', 'accepted_identical', 'rejected',
                       'subcommand_samples'],
             'thorough': ['cli_copies_judged', 'lib_copies_judged', 'files_64bit', 'files_128bit', 'accepted_identical', 'rejected',
-                         'subcommand_samples', 'multi_frame_files', 'crash_points_kill', 'crash_points_enospc']}
+                         'subcommand_samples', 'multi_frame_files', 'crash_points_kill', 'crash_points_enospc', 'asan_copies_judged']}
 MEM_GB = 3
 
 
 def builds(tier):
-    return ['rel', 'harness']
+    return ['rel', 'harness'] + (['harness-asan'] if tier == 'thorough' else [])
 
 
 def make_files(tier, rng, ctx):
@@ -104,6 +104,13 @@ def prepare(tier, seed, rng, scale, ctx):
                 descs.append({'route': 'cli', 'mode': 'trunc', 'start': a, 'end': min(size, a + step), 'skf_file': f['path'], 'name': f['name'], 'k': f['k']})
             for a in range(0, size * 8, step):
                 descs.append({'route': 'cli', 'mode': 'flip', 'start': a, 'end': min(size * 8, a + step), 'skf_file': f['path'], 'name': f['name'], 'k': f['k']})
+        if tier == 'thorough' and size <= 12000:
+            # the same enumeration under AddressSanitizer (decoders of damaged data are where memory errors would hide)
+            for mode, total in (('trunc', size), ('flip', size * 8)):
+                step = 20000
+                for a in range(0, total, step):
+                    descs.append({'route': 'lib', 'asan': True, 'mode': mode, 'start': a, 'end': min(total, a + step), 'skf_file': f['path'],
+                                  'name': f['name'], 'k': f['k']})
         nsamp = max(20, int(size * 9 * 0.01)) if tier == 'thorough' else min(60, max(20, int(size * 9 * 0.005)))
         nsamp = int(nsamp * scale) or 1
         for j in range(0, nsamp, 10):
@@ -133,13 +140,19 @@ def damaged(data, mode, i):
 
 
 def run_lib(desc, ctx, res):
-    H = ctx.bins['harness']
+    asan = desc.get('asan', False)
+    H = ctx.bins['harness-asan'] if asan else ctx.bins['harness']
     todo = [(desc['start'], desc['end'])]
     while todo:
         a, b = todo.pop()
         if a >= b:
             continue
-        p = ctx.sh(H, 'skfdamage', desc['skf_file'], desc['mode'], a, b, ctx.path('dmg.skf'), timeout=900, mem_gb=MEM_GB)
+        p = ctx.sh(H, 'skfdamage', desc['skf_file'], desc['mode'], a, b, ctx.path('dmg.skf'), timeout=900,
+                   mem_gb=None if asan else MEM_GB, env={'ASAN_OPTIONS': 'detect_leaks=0:halt_on_error=1:allocator_may_return_null=1'} if asan else None)
+        if asan and 'AddressSanitizer' in p.stderr:
+            res.violate('C19:asan:%s' % desc['name'], 'AddressSanitizer report while loading a damaged copy of %s (%s %d..%d): %s'
+                        % (desc['name'], desc['mode'], a, b, p.stderr.split('ERROR: AddressSanitizer')[-1][:300]), {'stderr': p.stderr[-3000:]})
+            return
         done = None
         for l in p.stdout.split('\n'):
             f = l.split('\t')
@@ -157,7 +170,7 @@ def run_lib(desc, ctx, res):
             n = b - a
             res.evals += n
             res.nontrivial_n += n
-            res.count('lib_copies_judged', n)
+            res.count('asan_copies_judged' if asan else 'lib_copies_judged', n)
             res.count('rejected', int(done[4]))
             continue
         # the shard died (abort on allocation failure, or a crash): isolate the culprit
